@@ -17,6 +17,14 @@ too-large error, guard of the buffer clip, `WriteTo` closing what it copied) are
 `Version.fixed`.  Reverting any of the three repairs makes this fail to check. -/
 theorem source_is_fixed : sourceVersion = some .fixed := by decide
 
+/-- The method sets of `limitReadCloser`, `MultiReaderCloser`, `TeeReadCloser` (all non-test files
+of the package), their embedded fields (none) and the concrete types the constructors return, as
+re-extracted on this run, are exactly the ones the model covers: `Read`/`Close` for the limit
+reader (so `io.Copy` consumes it through `Read`), `Read`/`Close`/`WriteTo` for the multi reader,
+`Read`/`Close`/`Stop` for the tee reader.  A new method — e.g. an `io.Copy` fast path — breaks
+this obligation. -/
+theorem method_sets_as_modelled : methodSetsAsModelled = true := by decide
+
 /-- `WriteTo`'s buffer is non-empty (used by the copy-loop termination argument). -/
 theorem copy_buffer_nonempty : 0 < copyBufSize := by decide
 
